@@ -1,5 +1,6 @@
 import DryocVerif.Model.Protected
 import DryocVerif.Proofs.ProtectedErr
+import DryocVerif.Proofs.ProtectedErrExtra
 /-
 C19 — refusal of memory locking.  The lock oracle is arbitrary (`State.m.oracle : Nat → Bool`
 answers the i-th request that reaches `mlock(2)`; `failfrom:K` installs a new one).
@@ -10,6 +11,10 @@ answers the i-th request that reaches `mlock(2)`; `failfrom:K` installs a new on
   allocations are untouched (`err_preserves_others` — this one holds for every `err`, whatever
   its cause and whatever the token); the consumed region is gone, its allocation was wiped
   before release, and every page of it is back to `rw`, unlocked (`err_cleans_up`).
+* The same FROM THE OUTCOME, with no hypothesis on the oracle: whenever `lock` answers `err` (refusal, or
+  `mlock(2)` failing on `PROT_NONE` pages) the consumed region is released, zeroed, its pages `rw` and
+  unlocked (`lock_err_cleans_up`); a failed constructor leaves the whole kernel exactly as it was
+  (`err_create_no_residue`) and does release the block it had sized (`err_fsl_releases_block`).
 * OUT OF SCOPE (stated, not hidden): the non-`Result` operations `Clone for Locked/LockedRO` and
   `ResizableBytes::resize for Locked` re-lock with `expect` and DO panic when the request is
   refused (`clone_may_panic`, `resize_may_panic`); the invariant C14 survives those panics
@@ -18,7 +23,15 @@ answers the i-th request that reaches `mlock(2)`; `failfrom:K` installs a new on
 namespace DryocVerif.Properties.C19
 open DryocVerif DryocVerif.Model.Protected DryocVerif.Proofs.Protected
 
-/-- `Result`-returning tokens never panic, for every state and oracle -/
+/-- `Result`-returning tokens never panic, for every state and oracle.
+
+SCOPE (read this before relying on it): the statement is true BY CONSTRUCTION of the model — the model
+functions behind these tokens (`doLock`, `opUnlock`, `opProtect`, `opNa`, `doFromSlice`, `doNewLocked`)
+contain no `.panic` branch, and the proof is a case inspection.  Its content is therefore the
+MODELLING claim "these Rust entry points have no `expect`/`unwrap`/`resize`-of-a-locked-region on
+their path", which is checked against the real crate by the differential runs with a refusing
+`mlock` shim, not by this theorem.  The pre-repair shape of `from_slice_into_locked`, which DID
+contain such a path, is kept as the counter-model `doFromSliceOld` (`from_slice_old_panics`). -/
 theorem result_ops_never_panic (c : Cfg) (s : State) (t : Tok) (h : isResultOp t.op = true) :
     (step c s t).1 ≠ .panic :=
   result_never_panics c (resetRel s) t h
@@ -112,9 +125,166 @@ where
     obtain ⟨i, hi⟩ := List.getElem?_of_mem hm.1
     exact hp i sl hi (by simpa using hm.2)
 
-/-! ### out of scope: non-`Result` operations panic on refusal -/
-
 def cBytes16 : Cfg := { P := 4096, isArr := false, n := 16, wipe := true }
+
+/-! ### from the OUTCOME instead of the oracle -/
+
+/-- the lock oracle installed by `failfrom:K` refuses request `i` iff `1 ≤ K ≤ i` (so `K ≤ 0`
+never refuses, `K = 1` refuses everything from the next request on) -/
+theorem failOracle_spec (K : Int) (i : Nat) : failOracle K i = false ↔ 1 ≤ K ∧ K ≤ (i : Int) :=
+  failOracle_iff K i
+
+/-- **`err_cleans_up` from the outcome.**  If `lock` on a live slot ANSWERS `err` — because the
+request was refused, or because `mlock(2)` itself failed on the `PROT_NONE` pages of a no-access
+region — then (repaired `dryoc_mlock`, `c.undo`): the slot had an unlocked type state, it is gone,
+its block was released exactly once and zeroed, and every page of the block (guards included) is
+`rw` and unlocked.  No hypothesis on the oracle. -/
+theorem lock_err_cleans_up (c : Cfg) (hP : 0 < c.P) (hw : c.wipe = true) (hu : c.undo = true)
+    (s : State) (h : Inv c s) (i : Nat) (sl : Slot) (hi : s.slots[i]? = some sl) (hg : sl.gone = false)
+    (he : (step c s ⟨.lock, i⟩).1 = .err) :
+    isUnlockedSt sl.o.st = true ∧
+    (step c s ⟨.lock, i⟩).2.slots[i]? = some { sl with gone := true } ∧
+    (step c s ⟨.lock, i⟩).2.m.rel = (if sl.o.v.cap = 0 then [] else [(sl.o.v.cap, 0)]) ∧
+    (∀ p, inBlock c.P sl.o.v p →
+      (step c s ⟨.lock, i⟩).2.m.k.perm p = .rw ∧ (step c s ⟨.lock, i⟩).2.m.k.locked p = false) :=
+  ⟨(lock_err_eq hi hg he).1, lock_err_cleans hP hw h hi hg he (Or.inl hu)⟩
+
+/-- the same before the repair of `dryoc_mlock` (`c.undo = false`), for every region that is not
+`NoAccess`: there an `err` can only be a refusal, which never reaches the kernel.  (For a non-empty
+`NoAccess` region the conclusion is FALSE in that variant: `C14.lock_noaccess_leaks`.) -/
+theorem lock_err_cleans_up_leaky (c : Cfg) (hP : 0 < c.P) (hw : c.wipe = true)
+    (s : State) (h : Inv c s) (i : Nat) (sl : Slot) (hi : s.slots[i]? = some sl) (hg : sl.gone = false)
+    (he : (step c s ⟨.lock, i⟩).1 = .err) (hna : pmOf sl.o.st ≠ .na) :
+    (step c s ⟨.lock, i⟩).2.slots[i]? = some { sl with gone := true } ∧
+    (step c s ⟨.lock, i⟩).2.m.rel = (if sl.o.v.cap = 0 then [] else [(sl.o.v.cap, 0)]) ∧
+    (∀ p, inBlock c.P sl.o.v p →
+      (step c s ⟨.lock, i⟩).2.m.k.perm p = .rw ∧ (step c s ⟨.lock, i⟩).2.m.k.locked p = false) :=
+  lock_err_cleans hP hw h hi hg he (Or.inr (Or.inl (by cases hpm : pmOf sl.o.st <;> simp_all [PM.perm])))
+
+/-- non-vacuity witness (`lock_err_cleans_up`): an `err` that is NOT a refusal — the oracle grants
+everything, `mlock(2)` fails on the `PROT_NONE` pages (`new; lock; unlock; na; lock`) — and one that
+is (`new; failfrom:1; lock`); in both the conclusion, computed on the model, holds -/
+example :
+    let s := runState cBytes16 (State.init fun _ => true) [⟨.new, 0⟩, ⟨.lock, 0⟩, ⟨.unlock, 0⟩, ⟨.na, 0⟩]
+    let s' := runState cBytes16 (State.init fun _ => true) [⟨.new, 0⟩, ⟨.failfrom 1, 0⟩]
+    (s.m.oracle (s.m.cnt + 1) = true ∧ (step cBytes16 s ⟨.lock, 0⟩).1 = .err ∧
+      (step cBytes16 s ⟨.lock, 0⟩).2.m.rel = [(16, 0)] ∧
+      [1, 2, 3].map (step cBytes16 s ⟨.lock, 0⟩).2.m.k.perm = [.rw, .rw, .rw] ∧
+      [1, 2, 3].map (step cBytes16 s ⟨.lock, 0⟩).2.m.k.locked = [false, false, false]) ∧
+    (s'.m.oracle (s'.m.cnt + 1) = false ∧ (step cBytes16 s' ⟨.lock, 0⟩).1 = .err ∧
+      (step cBytes16 s' ⟨.lock, 0⟩).2.m.rel = [(16, 0)]) := by
+  decide
+
+/-- `err_preserves_others` along arbitrary histories: whatever happened before, an `err` leaves
+every other slot and every page of every other live region as it was -/
+theorem err_preserves_others_reachable (c : Cfg) (hP : 0 < c.P) (oracle : Nat → Bool) (toks : List Tok)
+    (t : Tok) (he : (step c (runState c (State.init oracle) toks) t).1 = .err) (j : Nat) (sl : Slot)
+    (hj : j ≠ t.idx) (hs : (runState c (State.init oracle) toks).slots[j]? = some sl) :
+    (step c (runState c (State.init oracle) toks) t).2.slots[j]? = some sl ∧
+    (sl.gone = false → ∀ p, inBlock c.P sl.o.v p →
+      (step c (runState c (State.init oracle) toks) t).2.m.k.perm p =
+        (runState c (State.init oracle) toks).m.k.perm p ∧
+      (step c (runState c (State.init oracle) toks) t).2.m.k.locked p =
+        (runState c (State.init oracle) toks).m.k.locked p) :=
+  err_preserves_others c hP _ (inv_runState hP toks (inv_init c oracle)) t he j sl hj hs
+
+instance (P : Nat) (v : PVec) (p : Nat) : Decidable (inBlock P v p) := by
+  unfold inBlock; infer_instance
+
+/-- non-vacuity witness (`err_preserves_others`), conclusion CHECKED: slot 0 is a live `LockedRO`
+region (block = pages 1–3, data page 2 locked, read-only), slot 1 a plain clone (pages 4–6); a refused
+`lock` of slot 1 answers `err`, consumes slot 1, and slot 0 with all its pages is as before -/
+example :
+    let s := runState cBytes16 (State.init fun _ => true)
+      [⟨.new, 0⟩, ⟨.clone, 0⟩, ⟨.lock, 0⟩, ⟨.ro, 0⟩, ⟨.failfrom 1, 0⟩]
+    let r := step cBytes16 s ⟨.lock, 1⟩
+    r.1 = .err ∧
+    s.slots.map (fun sl => (sl.gone, sl.o.st, (List.range 10).filter fun p => decide (inBlock 4096 sl.o.v p))) =
+      [(false, .prot .locked .ro, [1, 2, 3]), (false, .plain, [4, 5, 6])] ∧
+    r.2.slots.map (fun sl => (sl.gone, sl.o.st, sl.o.v.base, sl.o.v.cap, sl.o.v.len)) =
+      [(false, .prot .locked .ro, 1, 16, 16), (true, .plain, 4, 16, 16)] ∧
+    (r.2.slots[0]?.map fun sl => sl.o.v.buf) = (s.slots[0]?.map fun sl => sl.o.v.buf) ∧
+    [1, 2, 3].map r.2.m.k.perm = [.none, .r, .none] ∧ [1, 2, 3].map s.m.k.perm = [.none, .r, .none] ∧
+    [1, 2, 3].map r.2.m.k.locked = [false, true, false] ∧ [1, 2, 3].map s.m.k.locked = [false, true, false] := by
+  decide
+
+/-- **A failed constructor leaves no residue.**  If a token other than `lock` answers `err` (these
+are the constructors `fsl`, `fsro`, `newlocked`, `genlocked`, `newrolocked`, `genrolocked`; nothing
+else can) in a state without stray locks (`Tight`, true of every reachable state of the repaired
+model: `C14.tight_reachable`), then all slots are as before, EVERY page of the kernel has the
+permission and the lock flag it had before — so the block allocated for the half-built region has
+been unlocked, made `rw` and given back —, the number of locked pages is unchanged, and every block
+released on the way was zeroed. -/
+theorem err_create_no_residue (c : Cfg) (hP : 0 < c.P) (hw : c.wipe = true) (s : State) (h : Inv c s)
+    (ht : Tight c s) (t : Tok) (hop : t.op ≠ .lock) (he : (step c s t).1 = .err) :
+    (step c s t).2.slots = s.slots ∧
+    (∀ p, (step c s t).2.m.k.perm p = s.m.k.perm p ∧ (step c s t).2.m.k.locked p = s.m.k.locked p) ∧
+    lockedPages (step c s t).2.m.k = lockedPages s.m.k ∧
+    (∀ e ∈ (step c s t).2.m.rel, e.2 = 0) :=
+  ⟨(err_create_kernel hP h ht t hop he).1, (err_create_kernel hP h ht t hop he).2.1,
+   (err_create_kernel hP h ht t hop he).2.2, relz_step hw s t⟩
+
+/-- … and the release is not vacuous: a failed `from_slice_into_locked` / `…_readonly_locked` of
+`n` bytes into a resizable container releases exactly the block it had sized (`growCap 0 n` bytes) -/
+theorem err_fsl_releases_block (c : Cfg) (hw : c.wipe = true) (ha : c.isArr = false) (s : State)
+    (n : Nat) (ro : Bool) (he : (step c s ⟨if ro then .fsro n else .fsl n, 0⟩).1 = .err) :
+    (step c s ⟨if ro then .fsro n else .fsl n, 0⟩).2.m.rel =
+      if n = 0 then [] else [(growCap 0 n, 0)] := by
+  have key : (doFromSlice c (resetRel s) n ro).1 = .err →
+      (doFromSlice c (resetRel s) n ro).2.m.rel = if n = 0 then [] else [(growCap 0 n, 0)] := by
+    intro he
+    rw [fsl_err_rel c hw ha (resetRel s) n ro rfl he]
+    by_cases h0 : n = 0
+    · simp [h0, relOf]
+    · simp [h0, relOf_pos (growCap_ge 0 n).2]
+  cases ro
+  · exact key he
+  · exact key he
+
+/-- non-vacuity witness (`err_create_no_residue`, `err_fsl_releases_block`): with another region
+alive and locked, a refused `fsl:9` answers `err`, releases the 9-byte request's block and leaves
+one page locked, as before -/
+example :
+    let s := runState cBytes16 (State.init fun _ => true) [⟨.new, 0⟩, ⟨.lock, 0⟩, ⟨.failfrom 1, 0⟩]
+    (step cBytes16 s ⟨.fsl 9, 0⟩).1 = .err ∧ (step cBytes16 s ⟨.fsl 9, 0⟩).2.m.rel = [(growCap 0 9, 0)] ∧
+    lockedPages s.m.k = 1 ∧ lockedPages (step cBytes16 s ⟨.fsl 9, 0⟩).2.m.k = 1 ∧
+    (step cBytes16 s ⟨.newrolocked, 0⟩).1 = .ok := by
+  decide
+
+/-! ### counter-model of the repaired defect E14: `from_slice_into_locked` before the repair -/
+
+/-- the generic `from_slice_into_locked` BEFORE the repair: `Self::new_bytes().mlock()?` on the still
+EMPTY container (a lock of zero bytes never reaches the kernel, so `?` never fires), then
+`res.resize(src.len(), 0)` on the now LOCKED region — resize-by-copy, which re-locks with
+`expect("unable to lock on resize")` —, then the copy. -/
+def doFromSliceOld (c : Cfg) (s : State) (n : Nat) (ro : Bool) : Res × State :=
+  let r0 := lockV c s.m PVec.empty .rw
+  if r0.2 then
+    let r := lockedResize c r0.1 PVec.empty n
+    match r.2 with
+    | none => (.panic, ⟨r.1, s.slots⟩)
+    | some nv =>
+      let v1 := writeV nv (List.replicate n 0x5a)
+      let m1 := if ro then dryocMprotect c r.1 (ptr c v1) v1.len .r else r.1
+      (.ok, push s m1 (.prot .locked (if ro then .ro else .rw)) v1 false)
+  else (.err, ⟨r0.1, s.slots⟩)
+
+/-- E14: with a refusing `mlock` the old shape PANICS inside a function returning `Result`; the
+repaired shape (`doFromSlice`: size first, then `mlock()?`) answers `err`.  When the lock is granted
+the two agree. -/
+theorem from_slice_old_panics :
+    let s := runState cBytes16 (State.init fun _ => true) [⟨.failfrom 1, 0⟩]
+    let s0 := State.init fun _ => true
+    (doFromSliceOld cBytes16 s 9 false).1 = .panic ∧ (doFromSlice cBytes16 s 9 false).1 = .err ∧
+    (doFromSliceOld cBytes16 s0 9 false).1 = .ok ∧ (doFromSlice cBytes16 s0 9 false).1 = .ok ∧
+    (doFromSliceOld cBytes16 s0 9 false).2.slots.map (fun sl => (sl.o.st, sl.o.v.data)) =
+      (doFromSlice cBytes16 s0 9 false).2.slots.map (fun sl => (sl.o.st, sl.o.v.data)) := by
+  decide
+
+example : (doFromSliceOld cBytes16 (runState cBytes16 (State.init fun _ => true) [⟨.failfrom 1, 0⟩]) 9 false).1
+    = .panic := by decide
+
+/-! ### out of scope: non-`Result` operations panic on refusal -/
 
 /-- `new; lock; failfrom:1; clone`: cloning a `Locked` region must lock the copy; the refusal
 surfaces as a panic (`expect("unable to lock on resize")`), not as an error value. -/
